@@ -85,6 +85,36 @@ pub mod gtext {
         }
     }
 
+    /// `text.parse::<usize>()`: canonical decimal numerals only (what the engine applies it to: one digit)
+    pub trait GFromStr: Sized {
+        fn gparse(t: &String) -> Result<Self, ()>;
+    }
+    impl GFromStr for usize {
+        fn gparse(t: &String) -> Result<usize, ()> {
+            if t.n == 0 || t.n > 6 {
+                return Err(());
+            }
+            let mut v: usize = 0;
+            let mut i = 0;
+            while i < 6 {
+                if i < t.n {
+                    let c = t.b[i];
+                    if c < b'0' || c > b'9' {
+                        return Err(());
+                    }
+                    v = v * 10 + (c - b'0') as usize;
+                }
+                i += 1;
+            }
+            Ok(v)
+        }
+    }
+    impl String {
+        pub fn parse<T: GFromStr>(&self) -> Result<T, ()> {
+            T::gparse(self)
+        }
+    }
+
     /// `&String` coerces to `&str` (deref coercion), as with alloc's String; the text is ASCII
     impl core::ops::Deref for String {
         type Target = str;
